@@ -434,8 +434,14 @@ func c11Program(c *fw.Ctx, d *dataset) genQ {
 		// GROUP BY expression
 		t := d.spec
 		g = genQ{SQL: fmt.Sprintf("SELECT _points, %s FROM t GROUP BY CONCAT('-', s, n) AS sn", t.Fields[0].Name), Grouped: true}
-		if r.Intn(2) == 0 {
+		switch r.Intn(4) {
+		case 0:
 			g.SQL = fmt.Sprintf("SELECT _points, %s FROM t GROUP BY LEN(s) AS ls, b", t.Fields[0].Name)
+		case 1:
+			// a many-to-one function of a (possible) partition key
+			g.SQL = fmt.Sprintf("SELECT _points, %s FROM t GROUP BY SUBSTR(s, 0, 1) AS s1, n", t.Fields[0].Name)
+		case 2:
+			g.SQL = fmt.Sprintf("SELECT _points, %s FROM t GROUP BY SUBSTR(s, 0, 1) AS s1", t.Fields[0].Name)
 		}
 	}
 	return g
